@@ -348,9 +348,12 @@ Proof.
       (* the flag and the cursor after the raw-text scan *)
       assert (Hraw : PR c d l (lpos z) has /\ lpos (lz l) <= lpos z /\ lbuf z = lbuf (lz l) /\ lstart z = lpos z /\ sn v = lpos z - lpos (lz l)).
       { destruct (rawtag l =? html_hash_Plaintext).
-        - destruct (safe_inv _ _ (plaintext_loop_spec _ Hw)) as (zp & Ez & Ha). rewrite Ez in Er. cbn [rbind] in Er.
+        - destruct (safe_inv _ _ (plaintext_loop_spec c (lz l) false Hc Hw)) as ([zp hp] & Ez & Ha). rewrite Ez in Er. cbn [rbind fst snd] in Er, Ha.
+          pose proof Ez as Ez2. unfold with_tmpl_lx in Ez2.
+          pose proof (with_tmpl_RI c d l Hc Htb (binv_of_inv d l Hi) (fun z : lx => z) (fun _ z' => z') (fun z : lx => z) plaintext_body _ (lz l) false (zp, hp)
+                        (fun _ _ => eq_refl) plaintext_step_samele (RI_false c d l _ (samele_refl _)) Ez2) as [_ Hreg]. cbn [fst snd] in Hreg.
           rewrite shiftv_spec in Er by eauto using adv_wf. cbn [rbind fst snd] in Er. injection Er as <- <- <-.
-          destruct Ha as (A1 & A2 & A3). cbn [skip lpos lbuf lstart sn]. split; [intros E; discriminate|]. repeat split; try lia; assumption.
+          destruct Ha as (A1 & A2 & A3). cbn [skip lpos lbuf lstart sn]. split; [exact Hreg|]. repeat split; try lia; assumption.
         - destruct (safe_inv _ _ (rawtext_loop_spec c (rawtag l) (lz l) false Hc Hw)) as (s & Es & Ha). rewrite Es in Er. cbn [rbind] in Er.
           rewrite shiftv_spec in Er by eauto using adv_wf. cbn [rbind fst snd] in Er. injection Er as <- <- <-.
           destruct Ha as (A1 & A2 & A3). cbn [skip lpos lbuf lstart sn]. split; [|repeat split; try lia; assumption].
@@ -373,19 +376,6 @@ Proof.
 Qed.
 
 End Next.
-
-(* ---- finding c09-template:plaintext: in plaintext content the lexer does not look for delimiters ----------------------- *)
-(* <plaintext>a{{x}}b with the Go delimiters: the Text token [11,18) contains the region [12,17) and reports HasTemplate() = false *)
-Lemma html_template_plaintext_refuted_proof :
-  let d := [60;112;108;97;105;110;116;101;120;116;62;97;123;123;120;125;125;98] in
-  is_region go_tmpl d 12 17 /\
-  exists tr, run go_tmpl 3 (new_lexer d) = Ok tr /\
-    map (fun r => (fst (fst r), snd (fst r), lhas (snd r))) tr =
-      [(StartTagT, Some (mkSl 0 10), false); (StartTagCloseT, Some (mkSl 10 1), false); (TextT, Some (mkSl 11 7), false)].
-Proof.
-  split; [split; [lia|split; [discriminate|split; vm_compute; reflexivity]]|].
-  eexists. split; vm_compute; reflexivity.
-Qed.
 
 (* ---- the "if" half for scanning loops: a region reached over plain steps is skipped whole and sets the flag ------------ *)
 Lemma with_tmpl_inv2 {S R} c (cur : S -> lx) (setc : S -> lx -> S) (I : S * bool -> Prop) (Q : R * bool -> Prop)
@@ -515,4 +505,367 @@ Proof.
   destruct Hs as (_ & _ & _ & _ & (T1 & T2 & T3 & T4 & T5 & _ & T7 & _) & _). cbn [lz] in T4.
   assert (so (fst s) = lpos (lz l)) by (destruct (Z.eq_dec (so (fst s)) (lpos (lz l))); [assumption|destruct T7 as [T7|T7]; [lia|discriminate|discriminate]]).
   rewrite (shiftv_pos _ _ Es) in T4. cbn [mv lpos] in T4. unfold a. split; lia.
+Qed.
+
+(* ---- the same for the other scanning loops ------------------------------------------------------------------------------ *)
+(* the text loop at a '<' where no delimiter starts and nothing is selected: it dispatches at once *)
+Lemma text_dispatch_c c d l c1 : cfg_ok c -> tb c <> [] -> html_inv d l -> lstart (lz l) = lpos (lz l) ->
+  let a := lpos (lz l) in
+  getz d a = 60 -> getz d (a + 1) = c1 -> a + 1 < len d -> prefixb (tb c) (skipz a d) = false ->
+  (c1 = 33 \/ c1 = 63 \/ is_letter c1 = true \/ (c1 = 47 /\ a + 2 < len d /\ getz d (a + 2) <> 62)) ->
+  loop (fuel_of (lz l)) (text_body c) (lz l) =
+  Ok (lz l, if is_letter c1 then DStartTag else if c1 =? 33 then DMarkup else if c1 =? 63 then DBogusQ else DEndTag).
+Proof.
+  intros Hc Htb Hi Hcl a G0 G1 Ha1 Hnp Hc1. pose proof (inv_pos0 d l Hi) as H0.
+  unfold fuel_of. cbn [loop]. replace (text_body c (lz l)) with (text_body c (zat l a)) by (unfold a; rewrite zat_here; reflexivity). unfold text_body.
+  rewrite (zat_pkr d l a 0 Hi) by lia. rewrite Z.add_0_r, G0. cbn [rbind].
+  rewrite (tmpl_at_zat c d l a Hc Htb Hi ltac:(lia)), Hnp. cbn [rbind Z.eqb Pos.eqb].
+  rewrite (zat_pkr d l a 1 Hi) by lia. rewrite G1. cbn [rbind].
+  replace (0 <? mark (zat l a)) with false by (symmetry; apply Z.ltb_ge; unfold mark, zat; cbn [lpos lstart]; lia).
+  destruct Hc1 as [->|[->|[Hl|(-> & Ha2 & Hc2)]]].
+  - rewrite zat_here. reflexivity.
+  - rewrite zat_here. reflexivity.
+  - replace (c1 =? 47) with false by (symmetry; apply Z.eqb_neq; intros ->; discriminate). cbn [rbind]. rewrite Hl, zat_here. reflexivity.
+  - cbn [Z.eqb Pos.eqb]. rewrite (zat_pkr d l a 2 Hi) by lia. cbn [rbind].
+    replace (getz d (a + 2) =? 62) with false by (symmetry; apply Z.eqb_neq; exact Hc2). cbn [negb andb].
+    assert (Hae : at_end_i (zat l a) 2 = false).
+    { unfold at_end_i. apply Z.leb_gt. destruct Hi as (_ & Hlen & _). unfold lx_len, zat in *. cbn [lbuf lpos]. lia. }
+    rewrite Hae, orb_true_r. cbn [rbind negb andb]. rewrite zat_here. reflexivity.
+Qed.
+
+(* a token whose end is at or after q starts at the cursor (it is not a tag closer) and contains q *)
+Lemma finish_token c d l ty v l' q : cfg_ok c -> html_inv d l -> next c l = Ok (ty, Some v, l') ->
+  ty <> StartTagCloseT -> ty <> StartTagVoidT -> q <= lpos (lz l') -> so v = lpos (lz l) /\ q <= so v + sn v.
+Proof.
+  intros Hc Hi Hn H1 H2 Hq. pose proof Hi as (Hl & _).
+  pose proof (safe_eq _ _ _ (next_spec c l Hc Hl) Hn) as Hs. cbn [step_post] in Hs.
+  destruct Hs as (_ & _ & _ & _ & (T1 & T2 & T3 & T4 & T5 & _ & T7 & _) & _).
+  assert (so v = lpos (lz l)) by (destruct (Z.eq_dec (so v) (lpos (lz l))); [assumption|destruct T7 as [T7|T7]; [lia|congruence|congruence]]).
+  lia.
+Qed.
+
+(* bytes a one-byte scanning loop steps over: inside the input, no delimiter starts, and not the byte 62 ('>') *)
+Definition gt_plain (c : cfg) (d : list Z) (i : Z) : Prop :=
+  0 <= i < len d /\ prefixb (tb c) (skipz i d) = false /\ getz d i <> 62.
+
+Lemma gt_step (body : lx -> res (lp lx (lx * Z))) c d l i :
+  (forall zz, body zz = (c0 <-- pkr zz 0 ;; if c0 =? 62 then Ok (Brk (zz, 1)) else if eof0 zz c0 then Ok (Brk (zz, 0)) else Ok (Cont (mv zz 1)))) ->
+  html_inv d l -> lpos (lz l) <= i -> gt_plain c d i -> body (zat l i) = Ok (Cont (zat l (i + 1))).
+Proof.
+  intros Hb Hi Ha ((Hi0 & Hi1) & _ & H62). rewrite Hb. rewrite (zat_pkr d l i 0 Hi) by lia. rewrite Z.add_0_r. cbn [rbind].
+  replace (getz d i =? 62) with false by (symmetry; apply Z.eqb_neq; exact H62).
+  unfold eof0. rewrite (at_end_zat d l i Hi Hi1), andb_false_r. reflexivity.
+Qed.
+
+(* end tags: "</" + letter at the cursor, bytes [a+2,p) that are gt_plain, then a region *)
+Lemma html_template_endtag_proof : forall c d l p q, cfg_ok c -> tb c <> [] -> html_inv d l -> intag l = false -> rawtag l = 0 ->
+  let a := lpos (lz l) in
+  prefixb (tb c) (skipz a d) = false -> getz d a = 60 -> getz d (a + 1) = 47 -> is_letter (getz d (a + 2)) = true -> a + 2 <= p ->
+  (forall i, a + 2 <= i < p -> gt_plain c d i) -> is_region c d p q ->
+  exists v l', next c l = Ok (EndTagT, Some v, l') /\ lhas l' = true /\ so v = a /\ q <= so v + sn v.
+Proof.
+  intros c d l p q Hc Htb Hi Hit Hraw a Hnp G0 G1 G2 Hap Hplain Hreg.
+  pose proof Hi as (Hl & Hlen & _). pose proof (lwf_clean l Hl Hit) as Hcl. pose proof (inv_pos0 d l Hi) as H0.
+  destruct (is_region_in _ _ _ _ Hreg) as [Hpin Hpq].
+  assert (Hlt0 : 0 < len (tb c)) by (destruct (tb c) as [|x t]; [congruence|rewrite len_cons; pose proof (len_nonneg t); lia]).
+  assert (R2 : 0 <= a + 2 < len d) by (apply (getz_nz_range d (a + 2) (getz d (a + 2)) eq_refl); intros E; rewrite E in G2; discriminate).
+  destruct (html_total_step_proof c d l Hc Hi) as (ty & tk & l' & Hn & Hi'). pose proof Hn as Hn0.
+  unfold next in Hn. cbn [lz rawtag intag lerr ltext lattr lhas] in Hn. rewrite Hit, Hraw in Hn. cbn [Z.eqb negb] in Hn.
+  unfold next_content in Hn. cbn [lz rawtag intag lerr ltext lattr lhas] in Hn.
+  rewrite (text_dispatch_c c d l 47 Hc Htb Hi Hcl G0 G1 ltac:(fold a; lia) Hnp) in Hn.
+  2:{ right; right; right. split; [reflexivity|]. fold a. split; [lia|]. intros E. rewrite E in G2. discriminate. }
+  change (if is_letter 47 then DStartTag else if 47 =? 33 then DMarkup else if 47 =? 63 then DBogusQ else DEndTag) with DEndTag in Hn. cbn [rbind] in Hn.
+  replace (mv (lz l) 2) with (zat l (a + 2)) in Hn by (unfold zat, mv, a; reflexivity).
+  rewrite (zat_pkr d l (a + 2) 0 Hi) in Hn by (unfold a in *; lia). rewrite Z.add_0_r in Hn. cbn [rbind] in Hn. rewrite G2 in Hn. cbn [negb] in Hn.
+  unfold shift_endtag in Hn.
+  destruct (loop (fuel_of (zat l (a + 2))) (with_tmpl_lx c endtag_body) (zat l (a + 2), false)) as [rh| |] eqn:El; cbn [rbind] in Hn; try discriminate.
+  assert (Hst : forall i, a + 2 <= i < p -> prefixb (tb c) (skipz i d) = false -> endtag_body (zat l i) = Ok (Cont (zat l (i + 1)))).
+  { intros i Hr _. apply (gt_step endtag_body c d l i (fun zz => eq_refl) Hi); [unfold a in *; lia|apply Hplain; exact Hr]. }
+  assert (Hnps : forall i, a + 2 <= i < p -> prefixb (tb c) (skipz i d) = false) by (intros i Hr; apply (Hplain i Hr)).
+  destruct (scan_reach_done c d l endtag_body p q _ (a + 2) false rh Hc Htb Hi Hreg ltac:(unfold a in *; lia) endtag_fwd Hst Hnps El) as [Hh Hqq].
+  cbn zeta in Hn.
+  destruct (lexeme_from (fst (fst rh)) 2) as [t| |]; cbn [rbind] in Hn; try discriminate.
+  destruct (shiftv (mv (fst (fst rh)) (snd (fst rh)))) as [s| |] eqn:Es; cbn [rbind] in Hn; try discriminate.
+  destruct (2 <=? sn (fst s)); [|discriminate]. injection Hn as <- <- <-.
+  eexists _, _. split; [exact Hn0|]. cbn [lhas]. split; [exact Hh|].
+  apply (finish_token c d l _ _ _ q Hc Hi Hn0); [discriminate|discriminate|]. cbn [lz lx_lower lpos]. rewrite (shiftv_pos _ _ Es). cbn [mv lpos]. lia.
+Qed.
+
+(* bogus comments "<?": bytes [a+1,p) that are gt_plain, then a region *)
+Lemma html_template_bogus_proof : forall c d l p q, cfg_ok c -> tb c <> [] -> html_inv d l -> intag l = false -> rawtag l = 0 ->
+  let a := lpos (lz l) in
+  prefixb (tb c) (skipz a d) = false -> getz d a = 60 -> getz d (a + 1) = 63 -> a + 1 <= p ->
+  (forall i, a + 1 <= i < p -> gt_plain c d i) -> is_region c d p q ->
+  exists v l', next c l = Ok (CommentT, Some v, l') /\ lhas l' = true /\ so v = a /\ q <= so v + sn v.
+Proof.
+  intros c d l p q Hc Htb Hi Hit Hraw a Hnp G0 G1 Hap Hplain Hreg.
+  pose proof Hi as (Hl & Hlen & _). pose proof (lwf_clean l Hl Hit) as Hcl. pose proof (inv_pos0 d l Hi) as H0.
+  destruct (is_region_in _ _ _ _ Hreg) as [Hpin Hpq].
+  assert (R1 : 0 <= a + 1 < len d) by (apply (getz_nz_range d (a + 1) 63 G1); lia).
+  destruct (html_total_step_proof c d l Hc Hi) as (ty & tk & l' & Hn & Hi'). pose proof Hn as Hn0.
+  unfold next in Hn. cbn [lz rawtag intag lerr ltext lattr lhas] in Hn. rewrite Hit, Hraw in Hn. cbn [Z.eqb negb] in Hn.
+  unfold next_content in Hn. cbn [lz rawtag intag lerr ltext lattr lhas] in Hn.
+  rewrite (text_dispatch_c c d l 63 Hc Htb Hi Hcl G0 G1 ltac:(fold a; lia) Hnp ltac:(tauto)) in Hn.
+  change (if is_letter 63 then DStartTag else if 63 =? 33 then DMarkup else if 63 =? 63 then DBogusQ else DEndTag) with DBogusQ in Hn. cbn [rbind] in Hn.
+  replace (mv (lz l) 1) with (zat l (a + 1)) in Hn by (unfold zat, mv, a; reflexivity).
+  unfold shift_bogus in Hn.
+  destruct (loop (fuel_of (zat l (a + 1))) (with_tmpl_lx c bogus_body) (zat l (a + 1), false)) as [rh| |] eqn:El; cbn [rbind] in Hn; try discriminate.
+  assert (Hst : forall i, a + 1 <= i < p -> prefixb (tb c) (skipz i d) = false -> bogus_body (zat l i) = Ok (Cont (zat l (i + 1)))).
+  { intros i Hr _. apply (gt_step bogus_body c d l i (fun zz => eq_refl) Hi); [unfold a in *; lia|apply Hplain; exact Hr]. }
+  assert (Hnps : forall i, a + 1 <= i < p -> prefixb (tb c) (skipz i d) = false) by (intros i Hr; apply (Hplain i Hr)).
+  destruct (scan_reach_done c d l bogus_body p q _ (a + 1) false rh Hc Htb Hi Hreg ltac:(unfold a in *; lia) bogus_fwd Hst Hnps El) as [Hh Hqq].
+  cbn zeta in Hn.
+  destruct (lexeme_from (fst (fst rh)) 2) as [t| |]; cbn [rbind] in Hn; try discriminate.
+  destruct (shiftv (mv (fst (fst rh)) (snd (fst rh)))) as [s| |] eqn:Es; cbn [rbind] in Hn; try discriminate.
+  injection Hn as <- <- <-.
+  eexists _, _. split; [exact Hn0|]. cbn [lhas fst snd]. split; [exact Hh|].
+  apply (finish_token c d l _ _ _ q Hc Hi Hn0); [discriminate|discriminate|]. cbn [lz fst snd]. rewrite (shiftv_pos _ _ Es). cbn [mv lpos]. lia.
+Qed.
+
+(* "<!" at the cursor: what read_markup decides from the bytes after it *)
+Lemma markup_prefix c d l : cfg_ok c -> tb c <> [] -> html_inv d l -> intag l = false -> rawtag l = 0 ->
+  let a := lpos (lz l) in
+  prefixb (tb c) (skipz a d) = false -> getz d a = 60 -> getz d (a + 1) = 33 ->
+  forall ty tk l', next c l = Ok (ty, tk, l') ->
+  exists m, read_markup c (zat l (a + 2)) false = Ok m /\
+    (ty, tk, l') = (fst (fst (fst (fst m))), Some (snd (fst (fst (fst m)))),
+                    mkL (snd (fst m)) (rawtag l) false (lerr l) (Some (snd (fst (fst m)))) (lattr l) (snd m)).
+Proof.
+  intros Hc Htb Hi Hit Hraw a Hnp G0 G1 ty tk l' Hn.
+  pose proof Hi as (Hl & Hlen & _). pose proof (lwf_clean l Hl Hit) as Hcl. pose proof (inv_pos0 d l Hi) as H0.
+  assert (R1 : 0 <= a + 1 < len d) by (apply (getz_nz_range d (a + 1) 33 G1); lia).
+  unfold next in Hn. cbn [lz rawtag intag lerr ltext lattr lhas] in Hn. rewrite Hit, Hraw in Hn. cbn [Z.eqb negb] in Hn.
+  unfold next_content in Hn. cbn [lz rawtag intag lerr ltext lattr lhas] in Hn.
+  rewrite (text_dispatch_c c d l 33 Hc Htb Hi Hcl G0 G1 ltac:(fold a; lia) Hnp ltac:(tauto)) in Hn.
+  change (if is_letter 33 then DStartTag else if 33 =? 33 then DMarkup else if 33 =? 63 then DBogusQ else DEndTag) with DMarkup in Hn. cbn [rbind] in Hn.
+  replace (mv (lz l) 2) with (zat l (a + 2)) in Hn by (unfold zat, mv, a; reflexivity).
+  destruct (read_markup c (zat l (a + 2)) false) as [[[[[ty0 tk0] tx0] z0] h0]| |]; cbn [rbind] in Hn; try discriminate.
+  eexists. split; [reflexivity|]. cbn [fst snd]. injection Hn as <- <- <-. rewrite Hraw. reflexivity.
+Qed.
+
+(* bytes the CDATA loop steps over *)
+Definition cdata_plain (c : cfg) (d : list Z) (i : Z) : Prop :=
+  0 <= i < len d /\ prefixb (tb c) (skipz i d) = false /\ prefixb [93; 93; 62] (skipz i d) = false.
+
+Lemma cdata_step c d l i : cfg_ok c -> html_inv d l -> lpos (lz l) <= i -> cdata_plain c d i ->
+  cdata_body (zat l i) = Ok (Cont (zat l (i + 1))).
+Proof.
+  intros Hc Hi Ha ((Hi0 & Hi1) & _ & H3). destruct (zat_wf d l i Hi ltac:(lia)) as [Hw Hrem].
+  unfold cdata_body. rewrite (zat_pkr d l i 0 Hi) by lia. cbn [rbind].
+  unfold eof0. rewrite (at_end_zat d l i Hi Hi1), andb_false_r.
+  rewrite at_rem by (try exact Hw; repeat constructor; lia). rewrite Hrem, H3. cbn [rbind]. reflexivity.
+Qed.
+
+Lemma doctype_step c d l i : html_inv d l -> lpos (lz l) <= i -> gt_plain c d i ->
+  doctype_body (zat l i) = Ok (Cont (zat l (i + 1))).
+Proof.
+  intros Hi Ha ((Hi0 & Hi1) & _ & H62). unfold doctype_body. rewrite (zat_pkr d l i 0 Hi) by lia. rewrite Z.add_0_r. cbn [rbind].
+  replace (getz d i =? 62) with false by (symmetry; apply Z.eqb_neq; exact H62). cbn [orb].
+  unfold eof0. rewrite (at_end_zat d l i Hi Hi1), andb_false_r. reflexivity.
+Qed.
+
+(* the common end: a scanning loop of read_markup that reached the region *)
+Lemma markup_scan c d l p q body k (s0 : Z) (f : sl -> sl -> lx -> bool -> Z * sl * sl * lx * bool) fuel :
+  cfg_ok c -> tb c <> [] -> html_inv d l -> is_region c d p q -> lpos (lz l) <= s0 <= p -> scan_fwd body ->
+  (forall i, s0 <= i < p -> prefixb (tb c) (skipz i d) = false /\ body (zat l i) = Ok (Cont (zat l (i + 1)))) ->
+  (forall t v z' hh, snd (fst (f t v z' hh)) = z' /\ snd (f t v z' hh) = hh) ->
+  forall m, (rh <-- loop fuel (with_tmpl_lx c body) (zat l s0, false) ;;
+             let r0 := fst rh in t <-- lexeme_from (fst r0) k ;; s <-- shiftv (mv (fst r0) (snd r0)) ;; Ok (f t (fst s) (snd s) (snd rh))) = Ok m ->
+  snd m = true /\ q <= lpos (snd (fst m)) /\ exists t v z' hh, m = f t v z' hh.
+Proof.
+  intros Hc Htb Hi Hreg Hs0 Hfwd Hpl Hf m Hx.
+  destruct (loop fuel (with_tmpl_lx c body) (zat l s0, false)) as [rh| |] eqn:El; cbn [rbind] in Hx; try discriminate.
+  destruct (scan_reach_done c d l body p q fuel s0 false rh Hc Htb Hi Hreg Hs0 Hfwd (fun i Hr _ => proj2 (Hpl i Hr)) (fun i Hr => proj1 (Hpl i Hr)) El) as [Hh Hqq].
+  cbn zeta in Hx.
+  destruct (lexeme_from (fst (fst rh)) k) as [t| |]; cbn [rbind] in Hx; try discriminate.
+  destruct (shiftv (mv (fst (fst rh)) (snd (fst rh)))) as [s| |] eqn:Es; cbn [rbind] in Hx; try discriminate.
+  injection Hx as <-. destruct (Hf t (fst s) (snd s) (snd rh)) as [-> ->]. split; [exact Hh|]. split; [rewrite (shiftv_pos _ _ Es); cbn [mv lpos]; lia|eauto].
+Qed.
+
+(* CDATA sections *)
+Lemma html_template_cdata_proof : forall c d l p q, cfg_ok c -> tb c <> [] -> html_inv d l -> intag l = false -> rawtag l = 0 ->
+  let a := lpos (lz l) in
+  prefixb (tb c) (skipz a d) = false -> prefixb [60; 33; 91; 67; 68; 65; 84; 65; 91] (skipz a d) = true -> a + 9 <= p ->
+  (forall i, a + 9 <= i < p -> cdata_plain c d i) -> is_region c d p q ->
+  exists v l', next c l = Ok (TextT, Some v, l') /\ lhas l' = true /\ so v = a /\ q <= so v + sn v.
+Proof.
+  intros c d l p q Hc Htb Hi Hit Hraw a Hnp Hopen Hap Hplain Hreg.
+  pose proof (inv_pos0 d l Hi) as H0. destruct (is_region_in _ _ _ _ Hreg) as [Hpin Hpq].
+  assert (Hlt0 : 0 < len (tb c)) by (destruct (tb c) as [|x t]; [congruence|rewrite len_cons; pose proof (len_nonneg t); lia]).
+  pose proof (prefixb_len _ _ Hopen) as Hl9. change (len [60; 33; 91; 67; 68; 65; 84; 65; 91]) with 9 in Hl9.
+  assert (Hal : a <= len d) by lia. pose proof Hl9 as Hl9'. rewrite len_skipz in Hl9 by lia.
+  assert (Hb : getz d a = 60 /\ getz d (a + 1) = 33 /\ skipz (a + 2) d = 91 :: 67 :: 68 :: 65 :: 84 :: 65 :: 91 :: skipz (a + 9) d).
+  { destruct (skipz a d) as [|x0 [|x1 r]] eqn:Es; try (exfalso; unfold len in Hl9'; cbn [length] in Hl9'; lia).
+    assert (Er : skipz (a + 2) d = r).
+    { replace (a + 2) with (a + 2) by lia. rewrite <- (skipz_skipz a 2 d) by lia. rewrite Es. reflexivity. }
+    cbn [prefixb] in Hopen. apply andb_true_iff in Hopen. destruct Hopen as [E0 Hopen]. apply andb_true_iff in Hopen. destruct Hopen as [E1 Hopen].
+    apply Z.eqb_eq in E0, E1. subst x0 x1.
+    assert (P0 : peekz d a = Some 60) by (rewrite <- (Z.add_0_r a), <- peekz_skipz by lia; rewrite Es; apply peekz_cons_0).
+    assert (P1 : peekz d (a + 1) = Some 33) by (rewrite <- peekz_skipz by lia; rewrite Es; apply peekz_1).
+    split; [unfold getz; rewrite P0; reflexivity|]. split; [unfold getz; rewrite P1; reflexivity|].
+    replace (skipz (a + 9) d) with (skipz 7 r) by (rewrite <- Er, skipz_skipz by lia; f_equal; lia). rewrite Er.
+    destruct r as [|y0 [|y1 [|y2 [|y3 [|y4 [|y5 [|y6 r']]]]]]]; try (exfalso; unfold len in Hl9'; cbn [length] in Hl9'; lia).
+    cbn [prefixb] in Hopen. b2p. subst. reflexivity. }
+  destruct Hb as (G0 & G1 & Hsk2).
+  destruct (html_total_step_proof c d l Hc Hi) as (ty & tk & l' & Hn & Hi').
+  destruct (markup_prefix c d l Hc Htb Hi Hit Hraw Hnp G0 G1 ty tk l' Hn) as (m & Em & Eq). fold a in Em.
+  unfold read_markup in Em.
+  destruct (zat_wf d l (a + 2) Hi ltac:(unfold a in *; lia)) as [Hw2 Hrem2].
+  rewrite at_rem in Em by (try exact Hw2; repeat constructor; lia). rewrite Hrem2, Hsk2 in Em. cbn [prefixb Z.eqb Pos.eqb andb rbind] in Em.
+  rewrite at_rem in Em by (try exact Hw2; repeat constructor; lia). rewrite Hrem2, Hsk2 in Em. cbn [prefixb Z.eqb Pos.eqb andb rbind] in Em.
+  replace (mv (zat l (a + 2)) 7) with (zat l (a + 9)) in Em by (unfold zat, mv; cbn [lbuf lpos lstart]; f_equal; lia).
+  assert (Hpl : forall i, a + 9 <= i < p -> prefixb (tb c) (skipz i d) = false /\ cdata_body (zat l i) = Ok (Cont (zat l (i + 1)))).
+  { intros i Hr. split; [apply (Hplain i Hr)|apply (cdata_step c d l i Hc Hi); [unfold a in *; lia|apply Hplain; exact Hr]]. }
+  destruct (markup_scan c d l p q cdata_body 9 (a + 9) (fun t v z' hh => (TextT, v, t, z', hh)) (fuel_of (zat l (a + 2))) Hc Htb Hi Hreg ltac:(unfold a in *; lia) cdata_fwd Hpl
+              (fun _ _ _ _ => conj eq_refl eq_refl) m Em) as (Hh & Hq & t0 & v0 & z0 & h0 & ->).
+  cbn [fst snd] in *. injection Eq as -> -> ->. eexists _, _. split; [exact Hn|]. cbn [lhas]. split; [exact Hh|].
+  apply (finish_token c d l _ _ _ q Hc Hi Hn); [discriminate|discriminate|exact Hq].
+Qed.
+
+Lemma cipre_len ps : forall xs, cipre ps xs = true -> len ps <= len xs.
+Proof.
+  induction ps as [|c ps IH]; intros xs H; [change (len (@nil Z)) with 0; apply len_nonneg|].
+  destruct xs as [|x xs]; cbn [cipre] in H; [discriminate|]. apply andb_true_iff in H. destruct H as [_ H]. rewrite !len_cons. specialize (IH xs H). lia.
+Qed.
+
+(* doctype: "<!doctype" in any ASCII case at the cursor; the loop starts after an optional space *)
+Lemma html_template_doctype_proof : forall c d l p q, cfg_ok c -> tb c <> [] -> html_inv d l -> intag l = false -> rawtag l = 0 ->
+  let a := lpos (lz l) in
+  prefixb (tb c) (skipz a d) = false -> getz d a = 60 -> getz d (a + 1) = 33 ->
+  prefixb [45; 45] (skipz (a + 2) d) = false -> prefixb [91; 67; 68; 65; 84; 65; 91] (skipz (a + 2) d) = false ->
+  cipre [100; 111; 99; 116; 121; 112; 101] (skipz (a + 2) d) = true ->
+  let s0 := a + 9 + (if getz d (a + 9) =? 32 then 1 else 0) in
+  s0 <= p -> (forall i, s0 <= i < p -> gt_plain c d i) -> is_region c d p q ->
+  exists v l', next c l = Ok (DoctypeT, Some v, l') /\ lhas l' = true /\ so v = a /\ q <= so v + sn v.
+Proof.
+  intros c d l p q Hc Htb Hi Hit Hraw a Hnp G0 G1 Hn1 Hn2 Hci s0 Hsp Hplain Hreg.
+  pose proof (inv_pos0 d l Hi) as H0. destruct (is_region_in _ _ _ _ Hreg) as [Hpin Hpq].
+  assert (Hlt0 : 0 < len (tb c)) by (destruct (tb c) as [|x t]; [congruence|rewrite len_cons; pose proof (len_nonneg t); lia]).
+  assert (R1 : 0 <= a + 1 < len d) by (apply (getz_nz_range d (a + 1) 33 G1); lia).
+  pose proof (cipre_len _ _ Hci) as Hl7. change (len [100; 111; 99; 116; 121; 112; 101]) with 7 in Hl7. rewrite len_skipz in Hl7 by lia.
+  destruct (html_total_step_proof c d l Hc Hi) as (ty & tk & l' & Hn & Hi').
+  destruct (markup_prefix c d l Hc Htb Hi Hit Hraw Hnp G0 G1 ty tk l' Hn) as (m & Em & Eq). fold a in Em.
+  unfold read_markup in Em.
+  destruct (zat_wf d l (a + 2) Hi ltac:(unfold a in *; lia)) as [Hw2 Hrem2].
+  rewrite at_rem in Em by (try exact Hw2; repeat constructor; lia). rewrite Hrem2, Hn1 in Em. cbn [rbind] in Em.
+  rewrite at_rem in Em by (try exact Hw2; repeat constructor; lia). rewrite Hrem2, Hn2 in Em. cbn [rbind] in Em.
+  rewrite (atci_from_cipre (zat l (a + 2)) (skipz (a + 2) d) (conj Hw2 Hrem2)) in Em by (try (rewrite len_skipz by lia; lia); repeat constructor; lia).
+  change (skipz 0 (skipz (a + 2) d)) with (skipz (a + 2) d) in Em. rewrite Hci in Em. cbn [rbind] in Em.
+  replace (mv (zat l (a + 2)) 7) with (zat l (a + 9)) in Em by (unfold zat, mv; cbn [lbuf lpos lstart]; f_equal; lia).
+  rewrite (zat_pkr d l (a + 9) 0 Hi) in Em by (unfold a in *; lia). rewrite Z.add_0_r in Em. cbn [rbind] in Em.
+  assert (Hz2 : (if getz d (a + 9) =? 32 then mv (zat l (a + 9)) 1 else zat l (a + 9)) = zat l s0).
+  { unfold s0. destruct (getz d (a + 9) =? 32); unfold zat, mv; cbn [lbuf lpos lstart]; f_equal; lia. }
+  rewrite Hz2 in Em.
+  assert (Hs0 : a + 9 <= s0 <= a + 10) by (unfold s0; destruct (getz d (a + 9) =? 32); lia).
+  assert (Hpl : forall i, s0 <= i < p -> prefixb (tb c) (skipz i d) = false /\ doctype_body (zat l i) = Ok (Cont (zat l (i + 1)))).
+  { intros i Hr. split; [apply (Hplain i Hr)|apply (doctype_step c d l i Hi); [unfold a in *; lia|apply Hplain; exact Hr]]. }
+  destruct (markup_scan c d l p q doctype_body 9 s0 (fun t v z' hh => (DoctypeT, v, t, z', hh)) (fuel_of (zat l s0)) Hc Htb Hi Hreg ltac:(unfold a in *; lia) doctype_fwd Hpl
+              (fun _ _ _ _ => conj eq_refl eq_refl) m Em) as (Hh & Hq & t0 & v0 & z0 & h0 & ->).
+  cbn [fst snd] in *. injection Eq as -> -> ->. eexists _, _. split; [exact Hn|]. cbn [lhas]. split; [exact Hh|].
+  apply (finish_token c d l _ _ _ q Hc Hi Hn); [discriminate|discriminate|exact Hq].
+Qed.
+
+(* bogus comments "<!x": not "--", "[CDATA[" or doctype *)
+Lemma html_template_bogus_bang_proof : forall c d l p q, cfg_ok c -> tb c <> [] -> html_inv d l -> intag l = false -> rawtag l = 0 ->
+  let a := lpos (lz l) in
+  prefixb (tb c) (skipz a d) = false -> getz d a = 60 -> getz d (a + 1) = 33 ->
+  prefixb [45; 45] (skipz (a + 2) d) = false -> prefixb [91; 67; 68; 65; 84; 65; 91] (skipz (a + 2) d) = false ->
+  cipre [100; 111; 99; 116; 121; 112; 101] (skipz (a + 2) d) = false ->
+  a + 2 <= p -> (forall i, a + 2 <= i < p -> gt_plain c d i) -> is_region c d p q ->
+  exists v l', next c l = Ok (CommentT, Some v, l') /\ lhas l' = true /\ so v = a /\ q <= so v + sn v.
+Proof.
+  intros c d l p q Hc Htb Hi Hit Hraw a Hnp G0 G1 Hn1 Hn2 Hci Hsp Hplain Hreg.
+  pose proof (inv_pos0 d l Hi) as H0. destruct (is_region_in _ _ _ _ Hreg) as [Hpin Hpq].
+  assert (Hlt0 : 0 < len (tb c)) by (destruct (tb c) as [|x t]; [congruence|rewrite len_cons; pose proof (len_nonneg t); lia]).
+  assert (R1 : 0 <= a + 1 < len d) by (apply (getz_nz_range d (a + 1) 33 G1); lia).
+  destruct (html_total_step_proof c d l Hc Hi) as (ty & tk & l' & Hn & Hi').
+  destruct (markup_prefix c d l Hc Htb Hi Hit Hraw Hnp G0 G1 ty tk l' Hn) as (m & Em & Eq). fold a in Em.
+  unfold read_markup in Em.
+  destruct (zat_wf d l (a + 2) Hi ltac:(unfold a in *; lia)) as [Hw2 Hrem2].
+  rewrite at_rem in Em by (try exact Hw2; repeat constructor; lia). rewrite Hrem2, Hn1 in Em. cbn [rbind] in Em.
+  rewrite at_rem in Em by (try exact Hw2; repeat constructor; lia). rewrite Hrem2, Hn2 in Em. cbn [rbind] in Em.
+  rewrite (atci_from_cipre (zat l (a + 2)) (skipz (a + 2) d) (conj Hw2 Hrem2)) in Em by (try (rewrite len_skipz by lia; lia); repeat constructor; lia).
+  change (skipz 0 (skipz (a + 2) d)) with (skipz (a + 2) d) in Em. rewrite Hci in Em. cbn [rbind] in Em.
+  unfold shift_bogus in Em.
+  destruct (loop (fuel_of (zat l (a + 2))) (with_tmpl_lx c bogus_body) (zat l (a + 2), false)) as [rh| |] eqn:El; cbn [rbind] in Em; try discriminate.
+  assert (Hst : forall i, a + 2 <= i < p -> prefixb (tb c) (skipz i d) = false -> bogus_body (zat l i) = Ok (Cont (zat l (i + 1)))).
+  { intros i Hr _. apply (gt_step bogus_body c d l i (fun zz => eq_refl) Hi); [unfold a in *; lia|apply Hplain; exact Hr]. }
+  assert (Hnps : forall i, a + 2 <= i < p -> prefixb (tb c) (skipz i d) = false) by (intros i Hr; apply (Hplain i Hr)).
+  destruct (scan_reach_done c d l bogus_body p q _ (a + 2) false rh Hc Htb Hi Hreg ltac:(unfold a in *; lia) bogus_fwd Hst Hnps El) as [Hh Hqq].
+  cbn zeta in Em.
+  destruct (lexeme_from (fst (fst rh)) 2) as [t| |]; cbn [rbind] in Em; try discriminate.
+  destruct (shiftv (mv (fst (fst rh)) (snd (fst rh)))) as [s| |] eqn:Es; cbn [rbind] in Em; try discriminate.
+  injection Em as <-. cbn [fst snd] in Eq. injection Eq as -> -> ->.
+  eexists _, _. split; [exact Hn|]. cbn [lhas]. split; [exact Hh|].
+  apply (finish_token c d l _ _ _ q Hc Hi Hn); [discriminate|discriminate|]. cbn [lz]. rewrite (shiftv_pos _ _ Es). cbn [mv lpos]. lia.
+Qed.
+
+(* ---- both halves in one statement -------------------------------------------------------------------------------------- *)
+(* The positions p at which the call Next(l) looks for an opening delimiter, by context (each constructor is the
+   shape of the input between the cursor and p).  Not looked at: the letters jumped over after '<' or "</" in raw
+   text, script "<!--" sections and svg / math content; the bytes of "<!--", "<![CDATA[", "<?" and of the terminators
+   "-->", "]]>", "?>" that are moved over at once; the blank after "<!doctype"; whitespace, '=' and the closers '>'
+   "/>" inside a tag; the first two bytes of "</", "<!", "<?" and the first letter of a tag name.  (Inside svg / math
+   / xml and plaintext the lexer looks at every other position; these two contexts are covered by the second half
+   and by the witnesses, not by [looked].) *)
+Inductive looked (c : cfg) (d : list Z) (l : lexer) (p : Z) : Prop :=
+| lk_text : intag l = false -> rawtag l = 0 -> p = lpos (lz l) -> looked c d l p
+| lk_attr_name a : tb_plain c -> intag l = true -> lstart (lz l) = lpos (lz l) -> lpos (lz l) <= a <= p ->
+    (forall i, lpos (lz l) <= i < a -> is_ws (getz d i) = true) -> (forall i, a <= i < p -> name_plain c d i) -> looked c d l p
+| lk_attr_value a b e v : tb_plain c -> intag l = true -> lstart (lz l) = lpos (lz l) -> lpos (lz l) <= a -> a < b -> b <= e -> e < v -> v <= p ->
+    (forall i, lpos (lz l) <= i < a -> is_ws (getz d i) = true) -> (forall i, a <= i < b -> name_plain c d i) ->
+    prefixb (tb c) (skipz b d) = false -> (forall i, b <= i < e -> is_ws (getz d i) = true) -> getz d e = 61 ->
+    (forall i, e < i < v -> is_ws (getz d i) = true) ->
+    (v = p \/ (prefixb (tb c) (skipz v d) = false /\ (getz d v = 34 \/ getz d v = 39) /\ forall i, v < i < p -> value_plain c d (getz d v) i)) ->
+    looked c d l p
+| lk_raw : intag l = false -> rawtag l <> 0 -> rawtag l <> html_hash_Plaintext -> raw_reach c (rawtag l) d (lpos (lz l)) p -> looked c d l p
+| lk_comment : intag l = false -> rawtag l = 0 -> prefixb (tb c) (skipz (lpos (lz l)) d) = false ->
+    prefixb [60; 33; 45; 45] (skipz (lpos (lz l)) d) = true -> lpos (lz l) + 4 <= p ->
+    (forall i, lpos (lz l) + 4 <= i < p -> comment_plain c d i) -> looked c d l p
+| lk_cdata : intag l = false -> rawtag l = 0 -> prefixb (tb c) (skipz (lpos (lz l)) d) = false ->
+    prefixb [60; 33; 91; 67; 68; 65; 84; 65; 91] (skipz (lpos (lz l)) d) = true -> lpos (lz l) + 9 <= p ->
+    (forall i, lpos (lz l) + 9 <= i < p -> cdata_plain c d i) -> looked c d l p
+| lk_doctype : intag l = false -> rawtag l = 0 -> prefixb (tb c) (skipz (lpos (lz l)) d) = false ->
+    getz d (lpos (lz l)) = 60 -> getz d (lpos (lz l) + 1) = 33 ->
+    prefixb [45; 45] (skipz (lpos (lz l) + 2) d) = false -> prefixb [91; 67; 68; 65; 84; 65; 91] (skipz (lpos (lz l) + 2) d) = false ->
+    cipre [100; 111; 99; 116; 121; 112; 101] (skipz (lpos (lz l) + 2) d) = true ->
+    lpos (lz l) + 9 + (if getz d (lpos (lz l) + 9) =? 32 then 1 else 0) <= p ->
+    (forall i, lpos (lz l) + 9 + (if getz d (lpos (lz l) + 9) =? 32 then 1 else 0) <= i < p -> gt_plain c d i) -> looked c d l p
+| lk_bogus_bang : intag l = false -> rawtag l = 0 -> prefixb (tb c) (skipz (lpos (lz l)) d) = false ->
+    getz d (lpos (lz l)) = 60 -> getz d (lpos (lz l) + 1) = 33 ->
+    prefixb [45; 45] (skipz (lpos (lz l) + 2) d) = false -> prefixb [91; 67; 68; 65; 84; 65; 91] (skipz (lpos (lz l) + 2) d) = false ->
+    cipre [100; 111; 99; 116; 121; 112; 101] (skipz (lpos (lz l) + 2) d) = false ->
+    lpos (lz l) + 2 <= p -> (forall i, lpos (lz l) + 2 <= i < p -> gt_plain c d i) -> looked c d l p
+| lk_bogus_q : intag l = false -> rawtag l = 0 -> prefixb (tb c) (skipz (lpos (lz l)) d) = false ->
+    getz d (lpos (lz l)) = 60 -> getz d (lpos (lz l) + 1) = 63 -> lpos (lz l) + 1 <= p ->
+    (forall i, lpos (lz l) + 1 <= i < p -> gt_plain c d i) -> looked c d l p
+| lk_endtag : intag l = false -> rawtag l = 0 -> prefixb (tb c) (skipz (lpos (lz l)) d) = false ->
+    getz d (lpos (lz l)) = 60 -> getz d (lpos (lz l) + 1) = 47 -> is_letter (getz d (lpos (lz l) + 2)) = true -> lpos (lz l) + 2 <= p ->
+    (forall i, lpos (lz l) + 2 <= i < p -> gt_plain c d i) -> looked c d l p.
+
+Lemma html_template_exact_proof : forall c d l, cfg_ok c -> tb c <> [] -> html_inv d l ->
+  (forall p q, looked c d l p -> is_region c d p q ->
+     exists ty v l', next c l = Ok (ty, Some v, l') /\ lhas l' = true /\ so v <= p /\ q <= so v + sn v) /\
+  (forall ty tk l', next c l = Ok (ty, tk, l') -> lhas l' = true ->
+     exists p q, lpos (lz l) <= p /\ q <= lpos (lz l') /\ is_region c d p q).
+Proof.
+  intros c d l Hc Htb Hi. split; [|intros ty tk l'; exact (html_template_flag_sound_proof c d Hc Htb l ty tk l' Hi)].
+  assert (Hpack : forall p ty, (exists v l', next c l = Ok (ty, Some v, l') /\ lhas l' = true /\ so v = lpos (lz l) /\ p <= so v + sn v) ->
+            forall p0, lpos (lz l) <= p0 -> exists ty0 v l', next c l = Ok (ty0, Some v, l') /\ lhas l' = true /\ so v <= p0 /\ p <= so v + sn v).
+  { intros p ty (v & l' & H1 & H2 & H3 & H4) p0 Hp0. exists ty, v, l'. split; [exact H1|]. split; [exact H2|]. split; [lia|exact H4]. }
+  intros p q Hlk Hreg. destruct Hlk.
+  - destruct (html_template_token_proof c d l p q Hc Hi H H0 H1 Hreg) as (l' & Hn & Hh & Hq).
+    exists TemplateT, (mkSl p (q - p)), l'. split; [exact Hn|]. split; [exact Hh|]. cbn [so sn]. lia.
+  - apply (Hpack q AttributeT); [|lia]. eapply html_template_attr_name_proof; eauto.
+  - apply (Hpack q AttributeT); [|lia]. eapply (html_template_attr_value_proof c d l a b e v p q); eauto.
+  - assert (Hle : lpos (lz l) <= p).
+    { pose proof Hi as ((Hw & _) & Hlen & _). assert (lpos (lz l) <= lpos (lz l) <= len d) by (destruct Hw as (_ & ? & ?); lia).
+      destruct (raw_reach_loop c (rawtag l) d l Hc Hi _ _ H2 H3) as [? _]. lia. }
+    apply (Hpack q TextT); [|exact Hle]. eapply html_template_rawtext_reach_proof; eauto.
+  - apply (Hpack q CommentT); [|lia]. eapply html_template_comment_proof; eauto.
+  - apply (Hpack q TextT); [|lia]. eapply html_template_cdata_proof; eauto.
+  - apply (Hpack q DoctypeT); [|destruct (getz d (lpos (lz l) + 9) =? 32); lia]. eapply html_template_doctype_proof; eauto.
+  - apply (Hpack q CommentT); [|lia]. eapply html_template_bogus_bang_proof; eauto.
+  - apply (Hpack q CommentT); [|lia]. eapply html_template_bogus_proof; eauto.
+  - apply (Hpack q EndTagT); [|lia]. eapply html_template_endtag_proof; eauto.
 Qed.
